@@ -190,11 +190,12 @@ let tag (input : string) (out : string) : string =
   match parse_case input with
   | Seg _ -> "seg-" ^ res
   | Owned (sh, _, _) -> "owned-" ^ (if shape_ok sh then "legal-" else "malformed-") ^ res
-  | Named (k, sh, axes, avar, _) ->
+  | Named (k, sh, _, avar, _) ->
     (if k = "F" then "fvar-" else "instance-") ^ "named-" ^ (if shape_ok sh then "legal-" else "malformed-")
-    ^ (if avar = None then "plain" else "avar") ^ "-" ^ string_of_int (min 3 (List.length axes)) ^ "ax-" ^ res
-  | Tuple (k, sh, axes, avar, _) ->
-    (match k with "N" -> "" | "F" -> "fvar-" | _ -> "instance-")
-    ^ (if k = "N" then "" else if not (shape_ok sh) then "malformed-"
-       else if z_to_int sh.sh_asz > 20 then "stride-" else "packed-")
-    ^ (if avar = None then "plain" else "avar") ^ "-" ^ string_of_int (min 3 (List.length axes)) ^ "ax-" ^ res
+    ^ (if avar = None then "plain" else "avar") ^ "-" ^ res
+  | Tuple ("N", _, axes, avar, _) ->
+    (if avar = None then "plain" else "avar") ^ "-" ^ string_of_int (min 3 (List.length axes)) ^ "ax-" ^ res
+  | Tuple (k, sh, _, avar, _) ->
+    (if k = "F" then "fvar-" else "instance-")
+    ^ (if not (shape_ok sh) then "malformed-" else if z_to_int sh.sh_asz > 20 then "stride-" else "packed-")
+    ^ (if avar = None then "plain" else "avar") ^ "-" ^ res
